@@ -1341,6 +1341,9 @@ def typed_sessions(rng, n, sid0, by_id, roots=("args", "top", "grp", "grp2", "na
 
 
 FOLLOW_UP = scen(["x", "<enter>", "<up>", "<enter>", "ok", "<enter>"], {"chunks": [{"m": "w", "t": [122]}]})
+# the same key again / Enter straight away: whatever the failed call left behind is used as it stands
+FOLLOW_UP2 = scen(["<enter>", "<left>", "y", "<bs>", "<right>", "<enter>", "<up>", "<enter>"], {"chunks": [{"m": "wl", "t": [122]}]})
+FOLLOW_UP3 = scen(["<right>", "<bs>", "z", "<enter>", "<down>", "<up>", "<enter>"], {"chunks": [{"m": "w", "t": [122]}]})
 
 
 @check("C14")
@@ -1383,7 +1386,7 @@ def c14(ctx):
                     else:
                         steps = [dict(st) for st in sc["steps"][:i]]
                         steps[i - 1]["fail"] = {"at": k, "mode": mode}
-                        variants.append({"sid": sid, "cfg": sc["cfg"], "steps": steps + FOLLOW_UP})
+                        variants.append({"sid": sid, "cfg": sc["cfg"], "steps": steps + (FOLLOW_UP, FOLLOW_UP2, FOLLOW_UP3)[(i + k) % 3]})
     ctx.extra["scenarios"] = len(scenarios)
     ctx.extra["fault_positions"] = npos
     ctx.extra["faulted_runs"] = len(variants)
@@ -1742,8 +1745,34 @@ def c09(ctx):
                         "ParseError kind and payload, the printed error line) validated by TLC against Derive!Parse")
 
 
+def c12_sessions(ctx, vh):
+    """Help-shaped lines inside ordinary editing sessions: typed, completed, edited, recalled from history and
+    submitted again - the handler must never see them (FOCUS=C12 judges the handler calls of every Enter)."""
+    rng = random.Random(ctx.seed + 12)
+    q = ctx.tier == "quick"
+    cat, by_id = load_catalogue()
+    scripts = typed_sessions(rng, 150 if q else 5000, 1, by_id, hs_out=0.3)
+    T = []
+    for set_id in ["leds", "grouped", "mixed", "raw"]:
+        names = sessions.SETS[set_id] or ["x"]
+        for line in ["help", "help " + names[0], names[0] + " --help", names[-1] + " -h", names[0] + " -xh 1", names[0] + " -- -h", "help -x", "help  " + names[-1] + " z"]:
+            for tail in (["<enter>", "<up>", "<enter>"], ["<enter>", "<up>", "<up>", "<down>", "<enter>"],
+                         ["<left>", "<right>", "<enter>", "q", "<enter>", "<up>", "<up>", "<enter>"],
+                         ["<enter>", "<up>", "<bs>", "<enter>", "<up>", "p", "<bs>", "<enter>"]):
+                T.append({"cfg": {"cmd": 32, "hcap": rng.choice([16, 64]), "set": set_id, "prompt": 0, "rawproc": rng.random() < 0.5},
+                          "steps": scen([line] + tail, {"chunks": [{"m": "w", "t": [111]}]})})
+    for i, sc in enumerate(T):
+        sc["sid"] = 600001 + i
+    prof = {"cmd": [16, 40], "hcap": [0, 16, 64], "sets": ALLSETS, "prompts": [0, 1], "steps": (15, 60),
+            "alphabet": [0x68, 0x65, 0x6C, 0x70, 0x2D, 0x61], "hs_out": 0.3,
+            "w": {"char": 20, "word": 25, "dash": 10, "space": 10, "enter": 14, "up": 10, "down": 4, "tab": 6, "bs": 4, "left": 3}}
+    scripts += T + sessions.gen_sessions(rng, 300 if q else 8000, prof, sid0=700001)
+    validate_cli(ctx, vh, scripts, "C12", "c12cli", shards=12)
+
+
 @check("C12")
 def c12(ctx):
+    c12_sessions(ctx, vlib.build_harness())
     return derive_check(ctx, "C12", True,
                         "for every declaration of the catalogue: `help`, `help <path>` for every command path, unknown and hidden names, "
                         "and command lines with -h / --help / clusters containing h inserted at every position (before and after `--`); "
